@@ -524,7 +524,14 @@ static void do_insert(Ctx &cx, Tree &t, int key, bool &inserted)
     Item *it = new_item(t, key);
     std::vector<uint8_t> before, after;
     if (f != t.model.end()) { snapshot(t, before); }
-    N *res = TF(insert)(&t.root, &it->node, cmp_nodes);
+    N *res;
+    if (f == t.model.end() && (it->serial & 3) == 1)
+    {
+        // the usual way of calling insert for a key known to be absent: the returned pointer is not looked at
+        (void)TF(insert)(&t.root, &it->node, cmp_nodes);
+        res = nullptr;
+    }
+    else { res = TF(insert)(&t.root, &it->node, cmp_nodes); }
     if (f == t.model.end())
     {
         inserted = true;
